@@ -211,7 +211,7 @@ class BigTtlTriplesYielder(BaseTriplesYielder):
                                                        start_index=start_index+1)
         if next_quotes +1 > len(target_str) or target_str[next_quotes + 1] == " ":
             return next_quotes
-        elif target_str[next_quotes + 1] == "^":
+        elif target_str[next_quotes + 1] in ("^", "@"):  # ^^datatype or @language-tag
             return self._find_next_blank(target_str, next_quotes) - 1
         else:
             raise ValueError("Malformed literal? It seems like there is a problem of unmatching quotes: " + target_str)
